@@ -89,6 +89,11 @@ let eval (fields : string list) : string =
                 b_states = states_of (nth fields 4) } in
       let a i = nth fields (5 + i) in
       let op = match a 0 with
+        | "create" ->
+            BCreate (str_of_hex (a 1), (if a 2 = "_" then None else Some (str_of_hex (a 2))),
+                     n_of_int (int_of_string (a 3)), n_of_int (int_of_string (a 4)))
+        | "switch" -> BSwitch (str_of_hex (a 1))
+        | "describe" -> BDescribe (str_of_hex (a 1), (if a 2 = "-" then [] else str_of_hex (a 2)))
         | "clone" -> BClone (str_of_hex (a 1))
         | "rename" -> BRename (str_of_hex (a 1), str_of_hex (a 2))
         | "delete" -> BDelete (str_of_hex (a 1), a 2 = "1")
